@@ -89,6 +89,7 @@ func genDeclsKinds(t *Tape, envProb int, stringOnly bool) *DeclSet {
 		}
 		d.Desc = drawDesc(t)
 		d.PtrForm = t.Draw(3) == 0
+		d.HideValue = t.Draw(6) == 0
 		if d.Kind == KString && t.Draw(12) == 0 {
 			d.Def = "http://example.com/" + strings.Repeat("a-very-long-path-segment/", 4)
 		}
